@@ -192,7 +192,9 @@ def run(ctx):
         wargs, wdesc = window_args(rng, inst)
         bszs = sorted({B, rng.choice([64, 1000, 4096, 65536, 1 << 20]), max(64, min(0xFFFFFF, len(data) + rng.choice([-1, 0, 1])))})
         if ctx.quick:
-            bszs = bszs[:2]
+            # keep the size-derived block size (last block of 0 / 1 / blocksz-1 bytes) for small payloads
+            keep = [b for b in bszs if abs(b - len(data)) <= 1 and len(data) <= 200_000]
+            bszs = sorted(set(bszs[:2] + keep[:1]))
         jobs.append((s4, plain, cont, bszs, wargs, extra))
         meta.append((d, kind, desc, wdesc, len(data)))
     for (d, kind, desc, wdesc, dlen), results in zip(meta, core.pmap(run_pair, jobs)):
